@@ -294,6 +294,7 @@ impl<'arena, 'input: 'arena> Lexer<'arena, 'input> {
                 }
 
                 let esc = self.src[pos + 1];
+                let mut esc_end = pos + 2;
                 match esc {
                     b'"' if quote == b'"' => buffer.push('"'),
                     b'\'' if quote == b'\'' => buffer.push('\''),
@@ -301,19 +302,27 @@ impl<'arena, 'input: 'arena> Lexer<'arena, 'input> {
                     b'n' => buffer.push('\n'),
                     b't' => buffer.push('\t'),
                     _ => {
+                        // The escaped character may be multi-byte, never split it
+                        // SAFETY: pos + 1..self.len is valid UTF-8 because `\` is ASCII and the original input is a &str
+                        let rest =
+                            unsafe { str::from_utf8_unchecked(&self.src[pos + 1..self.len]) };
+                        esc_end = pos + 1 + rest.chars().next().map_or(1, char::len_utf8);
                         self.emit_error(
-                            Range::from(pos..pos + 2),
+                            Range::from(pos..esc_end),
                             LexError::InvalidStringEscape,
                             vec![Label {
-                                span: Range::from(pos..pos + 2),
+                                span: Range::from(pos..esc_end),
                                 message: ArenaCow::Borrowed("I no sabi dis escape character"),
                             }],
                         );
                         // Append the invalid escape character
-                        buffer.push(esc as char);
+                        // SAFETY: pos + 1..esc_end is exactly one character of the input
+                        buffer.push_str(unsafe {
+                            str::from_utf8_unchecked(&self.src[pos + 1..esc_end])
+                        });
                     }
                 }
-                self.pos = pos + 2;
+                self.pos = esc_end;
             }
         }
 
